@@ -427,6 +427,155 @@ func main() {
 		die("no constant index into the signature found in the signature helpers (x/crosschain/types/eth_signer.go, x/tron/types/signer.go): their shape changed")
 	}
 
+	// handler code: arithmetic / conversion sinks on message-derived values, and attacker-indexed paired lists.
+	// Taint: parameters whose type names a message, argument struct, claim, coin, Int, big.Int or vm.Contract; propagated through
+	// local assignments and range variables. Sinks: Int/Coin/Dec .Add/.Mul/.MulRaw/.Quo (panic on overflow / zero divisor),
+	// NewIntFromBigInt (panics above 256 bits), .Int64()/.Uint64() (panic out of range on sdkmath.Int), integer casts.
+	type asite struct{ File, Func, Kind, Expr string }
+	var asites []asite
+	var pairs [][3]string // (function, ranged list, indexed list) for `for i := range X.A { … X.B[i] … }`
+	{
+		taintedType := func(t string) bool {
+			for _, k := range []string{"types.Msg", "Args", "sdk.Coin", "sdkmath.Int", "big.Int", "vm.Contract", "ExternalClaim", "Claim", "types.ERC20Token"} {
+				if strings.Contains(t, k) {
+					return true
+				}
+			}
+			return false
+		}
+		mentions := func(e ast.Node, names map[string]bool) bool {
+			found := false
+			ast.Inspect(e, func(n ast.Node) bool {
+				if id, ok := n.(*ast.Ident); ok && names[id.Name] {
+					found = true
+				}
+				return !found
+			})
+			return found
+		}
+		var hfiles []string
+		for _, g := range []string{"x/crosschain/keeper/*.go", "x/crosschain/precompile/*.go", "x/staking/precompile/*.go", "x/erc20/keeper/*.go", "x/gov/keeper/msg_server.go", "x/migrate/keeper/*.go", "x/ibc/middleware/keeper/*.go"} {
+			m, _ := filepath.Glob(filepath.Join(repo, g))
+			hfiles = append(hfiles, m...)
+		}
+		sort.Strings(hfiles)
+		if len(hfiles) < 40 {
+			die("handler files not found (x/crosschain/keeper etc.)")
+		}
+		for _, fn := range hfiles {
+			base := filepath.Base(fn)
+			if strings.HasSuffix(base, "_test.go") || strings.Contains(base, "grpc_query") || strings.Contains(base, "genesis") {
+				continue
+			}
+			f, err := parser.ParseFile(fset, fn, nil, 0)
+			if err != nil {
+				die("parse %s: %v", fn, err)
+			}
+			rel, _ := filepath.Rel(repo, fn)
+			for _, d := range f.Decls {
+				fd, ok := d.(*ast.FuncDecl)
+				if !ok || fd.Body == nil {
+					continue
+				}
+				taint := map[string]bool{}
+				for _, p := range fd.Type.Params.List {
+					if taintedType(exprStr(p.Type)) {
+						for _, n := range p.Names {
+							taint[n.Name] = true
+						}
+					}
+				}
+				if len(taint) == 0 {
+					continue
+				}
+				for changed := true; changed; {
+					changed = false
+					ast.Inspect(fd.Body, func(n ast.Node) bool {
+						switch a := n.(type) {
+						case *ast.AssignStmt:
+							for i, l := range a.Lhs {
+								id, ok := l.(*ast.Ident)
+								if !ok || taint[id.Name] || id.Name == "_" || id.Name == "err" {
+									continue
+								}
+								r := a.Rhs[0]
+								if len(a.Rhs) == len(a.Lhs) {
+									r = a.Rhs[i]
+								}
+								if mentions(r, taint) {
+									taint[id.Name] = true
+									changed = true
+								}
+							}
+						case *ast.RangeStmt:
+							if mentions(a.X, taint) {
+								for _, v := range []ast.Expr{a.Key, a.Value} {
+									if id, ok := v.(*ast.Ident); ok && id.Name != "_" && !taint[id.Name] {
+										taint[id.Name] = true
+										changed = true
+									}
+								}
+							}
+						}
+						return true
+					})
+				}
+				name := fd.Name.Name
+				if fd.Recv != nil && len(fd.Recv.List) > 0 {
+					name = strings.TrimPrefix(exprStr(fd.Recv.List[0].Type), "*") + "." + name
+				}
+				ast.Inspect(fd.Body, func(n ast.Node) bool {
+					switch x := n.(type) {
+					case *ast.CallExpr:
+						switch fun := x.Fun.(type) {
+						case *ast.SelectorExpr:
+							switch k := fun.Sel.Name; k {
+							case "Add", "Mul", "MulRaw", "Quo", "Int64", "Uint64", "NewIntFromBigInt":
+								if mentions(x, taint) && !strings.HasPrefix(exprStr(fun.X), "binary.") {
+									asites = append(asites, asite{rel, name, k, exprStr(x)})
+								}
+							}
+						case *ast.Ident:
+							if (fun.Name == "int64" || fun.Name == "uint64" || fun.Name == "int" || fun.Name == "uint32" || fun.Name == "uint8" || fun.Name == "byte") && len(x.Args) == 1 && mentions(x.Args[0], taint) {
+								asites = append(asites, asite{rel, name, "cast:" + fun.Name, exprStr(x)})
+							}
+						}
+					case *ast.RangeStmt:
+						// for i := range X.A { … X.B[i] … }
+						key, ok := x.Key.(*ast.Ident)
+						if !ok || !mentions(x.X, taint) {
+							return true
+						}
+						ranged := exprStr(x.X)
+						ast.Inspect(x.Body, func(m ast.Node) bool {
+							ix, ok := m.(*ast.IndexExpr)
+							if !ok {
+								return true
+							}
+							if id, ok := ix.Index.(*ast.Ident); ok && id.Name == key.Name && mentions(ix.X, taint) && exprStr(ix.X) != ranged {
+								pairs = append(pairs, [3]string{name, ranged, exprStr(ix.X)})
+							}
+							return true
+						})
+					}
+					return true
+				})
+			}
+		}
+		sort.Slice(asites, func(i, j int) bool {
+			a, b := asites[i], asites[j]
+			return a.File+a.Func+a.Kind+a.Expr < b.File+b.Func+b.Kind+b.Expr
+		})
+		var ua []asite
+		for i, a := range asites {
+			if i == 0 || a != asites[i-1] {
+				ua = append(ua, a)
+			}
+		}
+		asites = ua
+		sort.Slice(pairs, func(i, j int) bool { return pairs[i][0]+pairs[i][1]+pairs[i][2] < pairs[j][0]+pairs[j][1]+pairs[j][2] })
+	}
+
 	sort.Slice(sites, func(i, j int) bool {
 		a, b := sites[i], sites[j]
 		return a.File+a.Func+a.What < b.File+b.Func+b.What
@@ -495,6 +644,24 @@ func main() {
 			sb.WriteString(";\n  ")
 		}
 		sb.WriteString(fmt.Sprintf("(%s, %s, %s, %d, %d)", coqStr(g.File), coqStr(g.Func), coqStr(g.Var), g.MaxIdx, g.MinLen))
+	}
+	sb.WriteString("].\n")
+	sb.WriteString("\n(* handler code: arithmetic / conversion sinks applied to message-derived values (file, function, kind, expression) *)\n")
+	sb.WriteString("Definition gen_arith_sites : list (string * string * string * string) :=\n [")
+	for i, a := range asites {
+		if i > 0 {
+			sb.WriteString(";\n  ")
+		}
+		sb.WriteString(fmt.Sprintf("(%s, %s, %s, %s)", coqStr(a.File), coqStr(a.Func), coqStr(a.Kind), coqStr(a.Expr)))
+	}
+	sb.WriteString("].\n")
+	sb.WriteString("\n(* handler code: `for i := range A { … B[i] … }` over two message-derived lists (function, ranged, indexed) *)\n")
+	sb.WriteString("Definition gen_paired_indexes : list (string * string * string) :=\n [")
+	for i, p := range pairs {
+		if i > 0 {
+			sb.WriteString(";\n  ")
+		}
+		sb.WriteString(fmt.Sprintf("(%s, %s, %s)", coqStr(p[0]), coqStr(p[1]), coqStr(p[2])))
 	}
 	sb.WriteString("].\n")
 	if err := os.WriteFile(filepath.Join(out, "Gen_MsgFields.v"), []byte(sb.String()), 0o644); err != nil {
